@@ -89,6 +89,8 @@ static int verif_strncmp(const char *a, const char *b, size_t n) {
 #define strlen(s) verif_strlen(s)
 #define strstr(h, n) verif_strstr(h, n)
 #define memcpy(d, s, n) verif_memcpy(d, s, n)
+/* strncpy of a part of the input that contains no NUL within n characters copies exactly n characters, like memcpy */
+#define strncpy(d, s, n) ((char *)verif_memcpy(d, s, n))
 #define fprintf(...) verif_fprintf(__VA_ARGS__)
 static void StrList__ctor_default(struct StrList *l) { l->len = 0; }
 static void StrList__dtor(struct StrList *l) { }
